@@ -211,6 +211,10 @@ def run_obligation(o: Obligation, seed=0):
                     if cf.label == f.label:
                         rep = cf
                         break
+            if rep is None and Ec.fails:
+                # the real code fails on this input, though at another assertion than the symbolic run (e.g. the
+                # substrate could not follow the code further): what is reported is the concrete failure
+                rep = Ec.fails[0]
             cls_res[c] = dict(reproduced=rep is not None, assignment=f.assignment, paths=count,
                               kind=(rep.kind if rep is not None else f.kind),
                               site=((rep.site or f.site) if rep is not None else f.site),
